@@ -30,6 +30,7 @@ class GenOpts:
         self.local_data = True
         self.hist_targets = True
         self.nested_history = False
+        self.targetless_weight = 1    # relative to 6 (one target) / 2 (two targets)
         self.in_conds = True         # In(state) predicates in conditions
         self.history_weight = 2       # out of 5: probability that a compound/parallel state gets a history
         self.two_histories = True     # a state may own a shallow and a deep history
@@ -321,7 +322,7 @@ def charts(draw, o=None, datamodel='lua'):
                 # an unconditional eventless transition easily loops; guard most of them
                 if draw(st.integers(0, 3)) != 0:
                     t.cond = draw(bool_exprs(vars_, ids, 0, True, o.in_conds))
-            ntg = weighted(draw, [(1, 6), (2, 2 if o.multi_target else 0), (0, 1 if o.targetless else 0)])
+            ntg = weighted(draw, [(1, 6), (2, 2 if o.multi_target else 0), (0, o.targetless_weight if o.targetless else 0)])
             if ntg >= 1:
                 first = draw(st.sampled_from(all_target_ids))
                 t.targets = [first]
@@ -354,6 +355,13 @@ def charts(draw, o=None, datamodel='lua'):
 
 def event_histories(max_len=6, names=None):
     return st.lists(st.sampled_from(names or EVENT_NAMES), min_size=0, max_size=max_len)
+
+
+def conflict_profile():
+    """small charts in which most transitions react to the same event and many are targetless: selection, pre-emption and
+    the conflict tables of the transpilers are exercised densely"""
+    return GenOpts(max_states=7, max_depth=3, data=False, conds=False, descriptors=[['a'], ['a'], ['a'], ['b']], eventless=False,
+                   done_events=False, late_binding=False, targetless_weight=4, history_weight=1)
 
 
 def history_profile():
